@@ -670,3 +670,71 @@ pub fn static_value_call(op: &str) -> String {
     }
     out
 }
+
+// ---------------------------------------------------------------- CacheDB reads against the data it wraps
+/// Inner database: account ADDR exists with slot 1 = 7 and block 5 -> hash 0x55..; account OTHER does not exist but (oddly) has slot 1 = 9.
+#[derive(Default, Clone)]
+pub struct InnerRef;
+impl revm::DatabaseRef for InnerRef {
+    type Error = core::convert::Infallible;
+    fn basic_ref(&self, a: Address) -> Result<Option<AccountInfo>, Self::Error> {
+        Ok(if a == CALLER { Some(AccountInfo { nonce: 1, balance: U256::from(5), code_hash: revm::primitives::KECCAK_EMPTY, code: None }) } else { None })
+    }
+    fn code_by_hash_ref(&self, _h: B256) -> Result<Bytecode, Self::Error> {
+        Ok(Bytecode::default())
+    }
+    fn storage_ref(&self, a: Address, i: U256) -> Result<U256, Self::Error> {
+        Ok(if i == U256::from(1) { if a == CALLER { U256::from(7) } else { U256::from(9) } } else { U256::ZERO })
+    }
+    fn block_hash_ref(&self, n: u64) -> Result<B256, Self::Error> {
+        Ok(B256::repeat_byte(n as u8))
+    }
+}
+
+pub fn cachedb_read_policy() -> String {
+    use revm::db::{AccountState, DbAccount};
+    use revm::{Database, DatabaseRef};
+    let mut out = String::new();
+    let one = U256::from(1);
+    let states = [("NotExisting", AccountState::NotExisting, 0u64), ("Touched", AccountState::Touched, 7), ("StorageCleared", AccountState::StorageCleared, 0), ("None", AccountState::None, 7)];
+    for (sn, st, want) in states {
+        for cached_slot in [false, true] {
+            let mut db = CacheDB::new(InnerRef);
+            let mut acc = DbAccount { info: AccountInfo::default(), account_state: st.clone(), storage: Default::default() };
+            if cached_slot {
+                acc.storage.insert(one, U256::from(3));
+            }
+            db.accounts.insert(CALLER, acc);
+            let want = if cached_slot { 3 } else { want };
+            let r = db.storage_ref(CALLER, one).unwrap();
+            out += &format!("[storage_ref state={} cached_slot={} got={} want={}{}] ", sn, cached_slot, r, want, if r == U256::from(want) { "" } else { " MISMATCH" });
+            let m = db.storage(CALLER, one).unwrap();
+            let again = db.storage(CALLER, one).unwrap();
+            out += &format!("[storage state={} cached_slot={} got={} again={} want={}{}] ", sn, cached_slot, m, again, want, if m == U256::from(want) && again == m { "" } else { " MISMATCH" });
+        }
+    }
+    // account not cached: existing inner account reads through, a non-existing one answers zero (Database) / reads through (DatabaseRef)
+    let mut db = CacheDB::new(InnerRef);
+    let r = db.storage_ref(CALLER, one).unwrap();
+    out += &format!("[storage_ref uncached existing got={} want=7{}] ", r, if r == U256::from(7) { "" } else { " MISMATCH" });
+    let m = db.storage(CALLER, one).unwrap();
+    let again = db.storage(CALLER, one).unwrap();
+    out += &format!("[storage uncached existing got={} again={} want=7{}] ", m, again, if m == U256::from(7) && again == m { "" } else { " MISMATCH" });
+    let other = Address::repeat_byte(0x77);
+    let m = db.storage(other, one).unwrap();
+    out += &format!("[storage uncached missing got={} want=0{}] ", m, if m == U256::ZERO { "" } else { " MISMATCH" });
+    // block hashes: first read, repeated read, read through a shared reference after caching
+    let mut db = CacheDB::new(InnerRef);
+    let h1 = db.block_hash_ref(5).unwrap();
+    let h2 = db.block_hash(5).unwrap();
+    let h3 = db.block_hash(5).unwrap();
+    let h4 = db.block_hash_ref(5).unwrap();
+    let okh = h1 == B256::repeat_byte(5) && h2 == h1 && h3 == h1 && h4 == h1;
+    out += &format!("[block_hash 5 {}] [block_hash_ref 5 {}] ", if okh { "ok" } else { "MISMATCH" }, if okh { "ok" } else { "MISMATCH" });
+    db.block_hashes.insert(U256::from(6), B256::repeat_byte(0xAA));
+    let c1 = db.block_hash_ref(6).unwrap();
+    let c2 = db.block_hash(6).unwrap();
+    let okc = c1 == B256::repeat_byte(0xAA) && c2 == c1;
+    out += &format!("[block_hash cached {}] [block_hash_ref cached {}] ", if okc { "ok" } else { "MISMATCH" }, if okc { "ok" } else { "MISMATCH" });
+    out
+}
